@@ -99,9 +99,12 @@ type (
 		PKCounter   uint           `json:"pk"`
 		Accumulator *Accumulator   `json:"-"` // Accumulator contained in this instance, set by UnmarshalVerify()
 
-		// the key under which, and the signed bytes for which, the memoised Accumulator was obtained
+		// the key under which, and the signed bytes for which, the accumulator was verified, and what it
+		// was: private copies, so that nothing that is done afterwards to Data, to the Accumulator field or
+		// to the accumulator it points to is mistaken for verified
 		verifiedWith *ecdsa.PublicKey
 		verifiedData signed.Message
+		verified     *Accumulator
 	}
 
 	// Event contains the data clients need to update to the Accumulator of the specified index,
@@ -197,8 +200,22 @@ func (acc *Accumulator) Sign(sk *gabikeys.PrivateKey) (*SignedAccumulator, error
 	}
 	// (what we signed ourselves needs no verification under our own key: concurrent users of the
 	// result then only read it)
-	return &SignedAccumulator{Data: sig, PKCounter: sk.Counter, Accumulator: acc,
-		verifiedWith: &sk.ECDSA.PublicKey, verifiedData: sig}, nil
+	return &SignedAccumulator{Data: sig, PKCounter: sk.Counter, Accumulator: acc.clone(),
+		verifiedWith: &sk.ECDSA.PublicKey, verifiedData: append(signed.Message(nil), sig...), verified: acc.clone()}, nil
+}
+
+func (acc *Accumulator) clone() *Accumulator {
+	c := *acc
+	if acc.Nu != nil {
+		c.Nu = new(big.Int).Set(acc.Nu)
+	}
+	c.EventHash = append(Hash(nil), acc.EventHash...)
+	return &c
+}
+
+func (acc *Accumulator) equal(other *Accumulator) bool {
+	return acc.Index == other.Index && acc.Time == other.Time && bytes.Equal(acc.EventHash, other.EventHash) &&
+		(acc.Nu == nil) == (other.Nu == nil) && (acc.Nu == nil || acc.Nu.Cmp(other.Nu) == 0)
 }
 
 // Remove generates a new accumulator with the specified e removed from it.
@@ -237,13 +254,17 @@ func (s *SignedAccumulator) UnmarshalVerify(pk *gabikeys.PublicKey) (*Accumulato
 	}
 	// The memoised result only holds for the key it was obtained with and for the bytes it was
 	// obtained from (another message may have been decoded into this object since)
-	if s.Accumulator != nil && s.verifiedWith != nil && s.verifiedWith.Equal(pk.ECDSA) && bytes.Equal(s.Data, s.verifiedData) {
+	if s.verified != nil && s.verifiedWith != nil && s.verifiedWith.Equal(pk.ECDSA) && bytes.Equal(s.Data, s.verifiedData) {
+		if s.Accumulator == nil || !s.Accumulator.equal(s.verified) {
+			s.Accumulator = s.verified.clone()
+		}
 		return s.Accumulator, nil
 	}
 	if err := signed.UnmarshalVerify(pk.ECDSA, s.Data, msg); err != nil {
 		return nil, err
 	}
-	s.Accumulator, s.verifiedWith, s.verifiedData = msg, pk.ECDSA, s.Data
+	s.Accumulator, s.verified = msg, msg.clone()
+	s.verifiedWith, s.verifiedData = pk.ECDSA, append(signed.Message(nil), s.Data...)
 	return s.Accumulator, nil
 }
 
